@@ -39,3 +39,19 @@ def check_markers(moddir, flags=None, known=None):
                 if m.group(1) == "SILENT" and i in touched:
                     bad.append("%s:%d `%s`: only non-nil values reach this line by construction, yet a diagnostic touches it" % (rel, i, line.strip()))
     return n, bad
+
+
+def check_markers_textured(moddir, scratch, flags=None, kinds=None):
+    """the same markers on meaning-preserving textures of the module (checks/texture.py): -> (runs, failures)"""
+    from . import texture
+    import shutil
+    runs, bad = 0, []
+    for kind in kinds or texture.TEXTURES:
+        d = texture.make(moddir, kind, scratch)
+        try:
+            n, b = check_markers(d, flags=flags)
+            runs += 1
+            bad += ["texture `%s` (%s): %s" % (kind, texture.__doc__.split(kind, 1)[1].split("\n")[0].strip()[:90], x) for x in b]
+        finally:
+            shutil.rmtree(d, ignore_errors=True)
+    return runs, bad
